@@ -44,8 +44,28 @@ def _numeric(x):
     return False
 
 
-def candidates(tree):
+_PKG_TEXT = None
+
+
+def _mentions_elsewhere(name, this_src):
+    global _PKG_TEXT
+    if _PKG_TEXT is None:
+        _PKG_TEXT = {}
+        for dp, _d, fs in os.walk(PKG):
+            for f in fs:
+                if f.endswith(".py"):
+                    _PKG_TEXT[os.path.join(dp, f)] = open(os.path.join(dp, f)).read()
+    return sum(1 for t in _PKG_TEXT.values() if name in t and t != this_src)
+
+
+def candidates(tree, src=""):
     out = []
+    # rename a private module function / method (definition and every reference; only when no other file of the package mentions it)
+    for d in ast.walk(tree):
+        if isinstance(d, ast.FunctionDef) and d.name.startswith("_") and not d.name.startswith("__") and len(d.name) > 3 and src and not _mentions_elsewhere(d.name, src):
+            top = d in tree.body or any(isinstance(c, ast.ClassDef) and d in c.body for c in tree.body)
+            if top and sum(1 for x in ast.walk(tree) if isinstance(x, ast.FunctionDef) and x.name == d.name) == 1:
+                out.append(("rename-private-member", (tree, d), None))
     for fn in ast.walk(tree):
         if not isinstance(fn, ast.FunctionDef):
             continue
@@ -169,6 +189,16 @@ def apply(kind, node, extra, rng):
                 x.id = new
         d.name = new
         return f"rename nested function {old} -> {new} in {fn.name}"
+    if kind == "rename-private-member":
+        tree_, d = node
+        old, new = d.name, d.name + "_impl"
+        for x in ast.walk(tree_):
+            if isinstance(x, ast.Name) and x.id == old:
+                x.id = new
+            elif isinstance(x, ast.Attribute) and x.attr == old:
+                x.attr = new
+        d.name = new
+        return f"rename private helper {old} -> {new}"
     if kind == "inline-temp":
         L, i = node
         st = L[i]
@@ -242,7 +272,7 @@ def one(job):
     rng = random.Random(seed)
     src = open(os.path.join(PKG, rel)).read()
     tree = ast.parse(src)
-    cands = candidates(tree)
+    cands = candidates(tree, src)
     if KINDS:
         cands = [c for c in cands if c[0] in KINDS]
     if not cands:
@@ -293,7 +323,8 @@ if __name__ == "__main__":
     if a.all:
         jobs = []
         for rel in files:
-            n_c = len([c for c in candidates(ast.parse(open(os.path.join(PKG, rel)).read())) if not KINDS or c[0] in KINDS])
+            src_ = open(os.path.join(PKG, rel)).read()
+            n_c = len([c for c in candidates(ast.parse(src_), src_) if not KINDS or c[0] in KINDS])
             jobs += [(rel, i, rng.randrange(10**6)) for i in range(n_c)]
     else:
         jobs = [(rng.choice(files), rng.randrange(10**6), rng.randrange(10**6)) for _ in range(a.n)]
